@@ -266,7 +266,17 @@ func (c *bvCtx) expr(x CExpr) bvT {
 			if t.w == 0 {
 				return bvT{s: bvLit(t.lit, w), w: w, signed: sg}
 			}
-			return bvT{s: c.ext(t, w), w: w, signed: sg}
+			r := bvT{s: c.ext(t, w), w: w, signed: sg}
+			if t.w > w {
+				// contract conversions are value-preserving: the value must fit the target type
+				back := c.ext(bvT{s: r.s, w: w, signed: sg}, t.w)
+				c.side = append(c.side, "(= "+back+" "+t.s+")")
+			} else if t.signed != sg && t.w == w {
+				c.side = append(c.side, "(bvsge "+t.s+" "+bvLit(big.NewInt(0), w)+")")
+			} else if t.signed && !sg {
+				c.side = append(c.side, "(bvsge "+t.s+" "+bvLit(big.NewInt(0), t.w)+")")
+			}
+			return r
 		}
 		switch {
 		case strings.HasPrefix(id.Name, "bxor"), strings.HasPrefix(id.Name, "band"), strings.HasPrefix(id.Name, "bor"):
